@@ -12,7 +12,10 @@ the generated file as out of scope).  Recognised allocation forms (builtin.hpp d
   A.set_nonzeros()                                               zero-filled: not a site
   new T[n]            (no `()` / `{}` behind the bracket)        cells unwritten       (`new T[n]()`: value-initialised)
   malloc / realloc / aligned_alloc / posix_memalign / alloca     unwritten
-  v.reserve(k) followed by a raw access (v[..], v.data(), &v[0]) in the same function       capacity cells unwritten
+  v.reserve(k) + a raw access (v[..], v.data(), &v[0]) in the same function and NO growth call
+  (push_back/resize/assign/insert) of v there                                                capacity cells unwritten
+  (limitation: a raw write into reserved capacity in a function that ALSO grows the vector is not recognised — textual
+  order is not execution order inside loops; such code is a container-bounds error, the sanitizers' domain)
   (v.reserve(k) + push_back/emplace_back only; std::vector<T> v(n), resize(n) of a std::vector: value-initialised, no site)
 
 A site is keyed by  <file>|<enclosing struct::function>|<array>[#k]  (k = ordinal of the k-th site with the same key in
